@@ -5,10 +5,14 @@
 //@include ghost_iter_cw.rs
 //@include ghost_nfa_outs_cw.rs
 //@include ghost_ac_cw.rs
+//@include ghost_str.rs
+//@include ghost_cwl.rs
+//@include ghost_lm_sim_cw.rs
 //@include ghost_wrap_cw.rs
 
 //@impl src/charwise/builder.rs impl CharwiseDoubleArrayAhoCorasickBuilder
 //@fn build_original_nfa_and_mapper
+//@forbid num_free_blocks
 //@rules R22 R11 R3into R6 R20 R5
 //@ret r
 //@head{
